@@ -18,6 +18,10 @@ class Baton:
         self.rng = random.Random(seed)
         self.p = p_switch
         self.file = traced_file
+        # helpers of the traced file that live elsewhere in the same package are pre-emptible too (line granularity)
+        import os
+
+        self.package = os.path.dirname(os.path.dirname(os.path.abspath(traced_file.replace("<split>", "")))) + os.sep
         self.log = []
         self.switches = 0
         self.preemption_points = 0
@@ -69,7 +73,8 @@ class Baton:
             self.sems[me].acquire()
 
     def _trace(self, i, frame, event, arg):
-        if frame.f_code.co_filename != self.file:
+        fn = frame.f_code.co_filename
+        if fn != self.file and not (self.package and fn.startswith(self.package)):
             return None
 
         def local(fr, ev, arg):
